@@ -1163,6 +1163,35 @@ func (s *TxStore) removableTxForRemoveWallet(msgTx *wire.MsgTx, scriptHashSet ma
 	return true, nil
 }
 
+// spendsNoOtherWallet reports whether none of the inputs of msgTx spends a
+// credit that belongs to a managed wallet other than the one being removed.
+func (s *TxStore) spendsNoOtherWallet(tx mwdb.DBTransaction, msgTx *wire.MsgTx, scriptHashSet map[string]struct{}) (bool, error) {
+	nsCredits := tx.FetchBucket(s.bucketMeta.nsCredits)
+	for _, txIn := range msgTx.TxIn {
+		prevOut := &txIn.PreviousOutPoint
+		entries, err := getCreditsByTxHash(nsCredits, &prevOut.Hash)
+		if err != nil {
+			return false, err
+		}
+		for _, entry := range entries {
+			cred := credit{block: &BlockMeta{}}
+			if err = readRawCreditKey(entry.Key, &cred); err != nil {
+				return false, err
+			}
+			if cred.outPoint.Index != prevOut.Index {
+				continue
+			}
+			if err = readCreditValue(entry.Value, &cred); err != nil {
+				return false, err
+			}
+			if _, ok := scriptHashSet[string(cred.scriptHash)]; !ok {
+				return false, nil
+			}
+		}
+	}
+	return true, nil
+}
+
 func (s *TxStore) checkBlockRecordAfterTxRemoved(nsBlocks mwdb.Bucket, blkDeleted map[uint64]map[wire.Hash]struct{}) error {
 
 	for height, hashes := range blkDeleted {
@@ -1221,6 +1250,7 @@ func (s *TxStore) RemoveRelevantTx(tx mwdb.DBTransaction, addrmgr *keystore.Addr
 	nsUnmined := tx.FetchBucket(s.bucketMeta.nsUnmined)
 	nsBlocks := tx.FetchBucket(s.bucketMeta.nsBlocks)
 	nsTxRecords := tx.FetchBucket(s.bucketMeta.nsTxRecords)
+	nsDebits := tx.FetchBucket(s.bucketMeta.nsDebits)
 
 	// unmined tx
 	unminedHashes, err := s.utxoStore.removeRelevantUnminedCredit(tx, scriptHashSet)
@@ -1252,6 +1282,14 @@ func (s *TxStore) RemoveRelevantTx(tx mwdb.DBTransaction, addrmgr *keystore.Addr
 		removable, err := s.removableTxForRemoveWallet(&rec.MsgTx, scriptHashSet)
 		if err != nil {
 			return nil, false, err
+		}
+		if removable {
+			// a pending transaction that spends a coin of another wallet is still
+			// that wallet's business
+			removable, err = s.spendsNoOtherWallet(tx, &rec.MsgTx, scriptHashSet)
+			if err != nil {
+				return nil, false, err
+			}
 		}
 		if removable {
 			err = deleteRawUnmined(nsUnmined, hash[:])
@@ -1300,6 +1338,18 @@ func (s *TxStore) RemoveRelevantTx(tx mwdb.DBTransaction, addrmgr *keystore.Addr
 		removable, err := s.removableTxForRemoveWallet(msgtx, scriptHashSet)
 		if err != nil {
 			return nil, false, err
+		}
+		if removable {
+			// The debits of the removed wallet are gone by now. A debit that is
+			// left belongs to another wallet that spends through this transaction:
+			// without the record a later rollback could not give the coin back.
+			debits, err := nsDebits.GetByPrefix(item.Key[:72])
+			if err != nil {
+				return nil, false, err
+			}
+			if len(debits) > 0 {
+				removable = false
+			}
 		}
 		if removable {
 			err = nsTxRecords.Delete(item.Key)
